@@ -51,6 +51,19 @@ func SpecMintInterleaved() Spec {
 	}}
 }
 
+// the same transaction collected by snapshots of two chains, with its output spent in between:
+// T (deposit, chain 1), T3 spends T (chain 2), chain 3 includes T again, chain 4 includes T3 again
+func SpecDup() Spec {
+	return Spec{Nodes: 7, Steps: []Step{
+		{Kind: "deposit", Chain: 1},
+		{Kind: "transfer", Chain: 2, Src: []int{0}},
+		{Kind: "dup", Chain: 3, Src: []int{0}},
+		{Kind: "dup", Chain: 4, Src: []int{1}},
+		{Kind: "transfer", Chain: 3, Src: []int{1}, NewRound: true, Ext: 1},
+		{Kind: "dup", Chain: 5, Src: []int{0}},
+	}}
+}
+
 // F7 witness: pledge, then the node-accept sequence
 func SpecF7() Spec {
 	return Spec{Nodes: 7, Steps: []Step{
@@ -76,6 +89,7 @@ func GenSpecMint(r *vh.Rand, steps, cycles, mints int, interleave bool) Spec {
 	sp := Spec{Nodes: 7}
 	var spendable []int // steps whose output 0 is an unspent ordinary output
 	var bigs []int      // unspent pledge-amount deposits
+	var ordinary []int  // finalized ordinary steps (spent or not): candidates for a second inclusion
 	pending := -1       // pledge step waiting for its accept
 	done := 0
 	add := func(s Step) int { sp.Steps = append(sp.Steps, s); return len(sp.Steps) - 1 }
@@ -109,19 +123,25 @@ func GenSpecMint(r *vh.Rand, steps, cycles, mints int, interleave bool) Spec {
 		case pending < 0 && done < cycles && len(bigs) == 0 && roll < 45:
 			base.Kind, base.Big = "deposit", true
 			bigs = append(bigs, add(base))
+		case len(ordinary) >= 2 && roll >= 88:
+			base.Kind, base.Src = "dup", []int{ordinary[r.Intn(len(ordinary)-1)]} // not the newest: something may have spent it
+			add(base)
 		case len(spendable) >= 2 && roll < 58:
 			i := r.Intn(len(spendable) - 1)
 			base.Kind, base.Src = "pair", []int{spendable[i], spendable[i+1]}
 			spendable = append(spendable[:i], spendable[i+2:]...)
-			spendable = append(spendable, add(base))
+			id := add(base)
+			spendable, ordinary = append(spendable, id), append(ordinary, id)
 		case len(spendable) >= 1 && roll < 80:
 			i := r.Intn(len(spendable))
 			base.Kind, base.Src = "transfer", []int{spendable[i]}
 			spendable = append(spendable[:i], spendable[i+1:]...)
-			spendable = append(spendable, add(base))
+			id := add(base)
+			spendable, ordinary = append(spendable, id), append(ordinary, id)
 		default:
 			base.Kind = "deposit"
-			spendable = append(spendable, add(base))
+			id := add(base)
+			spendable, ordinary = append(spendable, id), append(ordinary, id)
 		}
 	}
 	if pending >= 0 {
@@ -233,8 +253,23 @@ func limit(sel selector, max int, r *vh.Rand) selector {
 			}
 			pending[i+1] = wait >= 0
 		}
+		dup := make([]bool, len(full)) // dup[i]: call i is a WriteSnapshot containing an already finalized transaction
+		seenTx := map[int]bool{}
+		for i, c := range full {
+			if c.Name == "WriteSnapshot" {
+				for _, id := range c.Txs {
+					if seenTx[id] {
+						dup[i] = true
+					}
+					seenTx[id] = true
+				}
+			}
+		}
 		prio := func(pt point) bool {
 			n := prefixLen(pt)
+			if (n > 0 && dup[n-1]) || (n < len(full) && dup[n]) {
+				return true
+			}
 			if n == len(full) || pending[n] {
 				return true
 			}
@@ -323,15 +358,18 @@ func mainC22(h *Harness) {
 	c := h.C
 	switch c.Tier {
 	case "quick":
-		h.RunWorkload("corpus-F7", SpecF7(), limit(allAfter(0), 16, c.Rng.Fork("l0")))
-		h.RunWorkload("gen-0", GenSpec(c.Rng.Fork("w0"), 7, 1, false), limit(sampledBefore(c.Rng.Fork("b0"), 1, 4), 40, c.Rng.Fork("l1")))
+		h.RunWorkload("corpus-F7", SpecF7(), limit(allAfter(0), 14, c.Rng.Fork("l0")))
+		h.RunWorkload("corpus-dup", SpecDup(), limit(allAfter(0), 9, c.Rng.Fork("l2")))
+		h.RunWorkload("gen-0", GenSpec(c.Rng.Fork("w0"), 8, 1, false), limit(sampledBefore(c.Rng.Fork("b0"), 1, 4), 34, c.Rng.Fork("l1")))
 	case "search":
 		h.RunWorkload("corpus-F7", SpecF7(), allAfter(0))
+		h.RunWorkload("corpus-dup", SpecDup(), allAfter(0))
 		for i := 0; i < 4; i++ {
 			h.RunWorkload(fmt.Sprintf("gen-%d", i), GenSpec(c.Rng.Fork(fmt.Sprint("w", i)), 9, 1, i%2 == 1), allAfter(0))
 		}
 	default:
 		h.RunWorkload("corpus-F7", SpecF7(), everyPoint)
+		h.RunWorkload("corpus-dup", SpecDup(), everyPoint)
 		for i := 0; i < 8; i++ {
 			h.RunWorkload(fmt.Sprintf("gen-%d", i), GenSpec(c.Rng.Fork(fmt.Sprint("w", i)), 10+2*i, 2, i%2 == 1), everyPoint)
 		}
